@@ -35,6 +35,14 @@ package controller
 // +R<cluster>-<signature>@<expiry>, then all trailing hints; the hasher gets
 // hash+size only.
 //@ func rewriteSignatures property C18 safety -bounds
+//@   # whitespace is preserved and hashed as received: a line is split at single
+//@   # spaces only, and what is written to hasher+output is token 0, then for each
+//@   # further token one space and the token, then one newline
+//@   calls strings.Split#1: requires $0 == line && $1 == " "
+//@   calls Writer.Write#1: requires string($0) == tokens[0]
+//@   calls Writer.Write#2: requires string($0) == " "
+//@   calls Writer.Write#3: requires string($0) == token
+//@   calls Writer.Write#4: requires string($0) == "\n"
 //@   calls fmt.Fprintf#1: requires $1 == "%s%s%s+R%s-%s%s" && $2[0] == iface(m[1]) && $2[1] == iface(m[2]) && $2[2] == iface(m[3]) && $2[3] == iface(clusterID) && $2[4] == iface(m[5][2:]) && $2[5] == iface(m[8])
 //@   calls fmt.Fprintf#2: requires $0 == hasher && $1 == "%s%s" && $2[0] == iface(m[1]) && $2[1] == iface(m[2])
 //@   calls json.Marshal#1: requires computedHash == col.PortableDataHash && (old(expectHash) == "" || old(expectHash) == col.PortableDataHash)
